@@ -784,7 +784,20 @@ class Engine:
             fid = self._nfid
             self._nfid += 1
             ev["inlined"] = True
-            for i, a in enumerate(args):
+            cargs = list(args)
+            if (callee.get("trait") or "").startswith("core::ops::function::Fn") and "{closure" in target_fn.canon and len(args) == 2:
+                # `f(a, b)` is `Fn::call(&f, (a, b))`: the closure body takes the environment and then the arguments one by one
+                tup = args[1]
+                if tup[0] == "agg" and tup[1] == "tuple" and len(tup[5]) == target_fn.argc - 1:
+                    parts = list(tup[5])
+                else:
+                    parts = [proj_field(tup, str(i)) for i in range(target_fn.argc - 1)]
+                env = args[0]
+                ety = target_fn.locals[1]["ty"] if target_fn.argc >= 1 else ""
+                if not ety.startswith("&") and env[0] == "ref":
+                    env = self.read(st, env[1])          # FnOnce shim: by-value environment
+                cargs = [env] + parts
+            for i, a in enumerate(cargs):
                 st.store[("L", fid, i + 1)] = a
             nsub = {}
             gen = getattr(target_fn, "generics", []) or []
@@ -1075,8 +1088,8 @@ def _m_identity(eng, st, callee, args, ev):
 
 def _m_into_iter(eng, st, callee, args, ev):
     a = args[0]
-    if a[0] == "agg" and a[1] == "adt" and a[2] and a[2].endswith(("::Range", "::RangeInclusive")):
-        return a
+    if a[0] == "agg" and a[1] == "adt" and a[2] and a[2].endswith(("::Range", "::RangeInclusive", "slice::iter::Iter", "array::iter::IntoIter")):
+        return a        # an iterator is its own IntoIterator
     if a[0] == "agg" and a[1] == "array":
         # by-value array iterator: elements in index order
         return ("agg", "adt", "core::array::iter::IntoIter", "IntoIter", ("elems", "pos"), (a, C(0, "usize")), 0)
@@ -1562,8 +1575,9 @@ def slice_parts(eng, st, t, self_ty=None):
             if m.group(1) in gen:
                 return loc, C(0, "usize"), ("tyconst", "%s/#%d" % (m.group(1), gen.index(m.group(1))), "usize")
             return loc, C(0, "usize"), ("len", t)
-        return None
-    if t[0] in ("param", "call", "okval", "someval", "getf", "init", "havoc"):
+        # a reference to a container that derefs to a slice (Box<[T]>, Vec<T>): its elements, opaque length
+        return ("P", t), C(0, "usize"), ("len", t)
+    if t[0] in ("param", "call", "okval", "someval", "getf", "init", "havoc", "cast", "pay"):
         return ("P", t), C(0, "usize"), ("len", t)
     return None
 
@@ -1749,7 +1763,8 @@ def _m_slice_iter(eng, st, callee, args, ev):
     a = args[0]
     if callee["name"] == "into_iter":
         sty = callee.get("self_ty") or ""
-        if not (sty.startswith("&[") or (sty.startswith("&'") and "[" in sty and "mut" not in sty)):
+        sty2 = re.sub(r"^&('\w+ )?", "&", sty)
+        if not (sty2.startswith("&[") or re.match(r"^&(std::boxed::|alloc::boxed::)?Box<\[", sty2) or re.match(r"^&(std::vec::|alloc::vec::)?Vec<", sty2)):
             return _m_into_iter(eng, st, callee, args, ev)
     while a[0] == "ref" and a[1][0] == "P":
         a = a[1][1]
